@@ -1,6 +1,7 @@
 package main
 
 import (
+	"encoding/json"
 	"fmt"
 	"math/big"
 	"sort"
@@ -120,6 +121,7 @@ const (
 	preFresh     = 0 // block 1 + the installed codes
 	preDirty     = 1 // a previous transaction of the same block has written storage and moved balance
 	preDirtyCode = 2 // C's code exists only in memory (C was created earlier in the same block)
+	preRewards   = 3 // the term-reward contract already holds three settings (one of them negative, as the precompile accepts)
 )
 
 // world is the (codes, pre-state) part of a case: what the Manager holds before the call.
@@ -163,6 +165,17 @@ func (w *world) build() *account.Manager {
 		x, a := am.GetAccount(addrX), am.GetAccount(addrA)
 		x.SetBalance(new(big.Int).Sub(x.GetBalance(), big.NewInt(3)))
 		a.SetBalance(new(big.Int).Add(a.GetBalance(), big.NewInt(3)))
+	}
+	if w.pre == preRewards {
+		// what three accepted calls of precompile 9 leave: term 0 = pool-1, term 2 = -10, term 1 = 5
+		m := params.RewardsMap{
+			0: {Term: 0, Value: new(big.Int).Sub(params.TermRewardPoolTotal, big.NewInt(1)), Times: 1},
+			2: {Term: 2, Value: big.NewInt(-10), Times: 1},
+			1: {Term: 1, Value: big.NewInt(5), Times: 1},
+		}
+		b, err := json.Marshal(m)
+		must(err)
+		must(am.GetAccount(params.TermRewardContract).SetStorageState(params.TermRewardContract.Hash(), b))
 	}
 	return am
 }
